@@ -220,8 +220,11 @@ def check_C08(rep, prog, tier):
         rep.add_obligation(name, 'violated', st, tot['bad'][:3])
     else:
         rep.add_obligation(name, 'holds', st)
-    # paths of mixed depth around the resume point, and the subtree filter (the same obligation C12 runs)
+    # paths of mixed depth around the resume point, and the subtree filter (the same obligations C12 runs)
     subtree_listing(rep, prog, tier, tier_deadline(tier, 240, 1200))
+    from .harness import apath as AP_
+    AP_.setup(prog)
+    AP_.ob_prefix(rep, prog, 8 if tier == 'quick' else 10, tier_deadline(tier, 120, 600))
 
 
 def check_C05(rep, prog, tier):
@@ -1215,19 +1218,21 @@ def check_C06(rep, prog, tier):
     rep.assumptions += ['storage operations are atomic; each activity is deterministic between storage operations',
                         'both activities are the real functions run from MIR in two interpreter threads; exactly one runs at a time',
                         'store / source / hash / JSON models as in C03']
-    for delete_latest in (False, True):
-        _race_obligation(rep, prog, RC, bound, dl, delete_latest)
+    for delete_latest, empty in ((False, False), (True, False), (False, True)):
+        _race_obligation(rep, prog, RC, bound, dl, delete_latest, empty)
 
 
-def _race_obligation(rep, prog, RC, bound, dl, delete_latest):
+def _race_obligation(rep, prog, RC, bound, dl, delete_latest, empty=False):
     from .interp import parallel_explore
-    res, st, fns, mods, inc = parallel_explore(prog, RC.make_race(prog, bound, delete_latest=delete_latest), deadline=dl, max_paths=400000, step_budget=900000)
+    res, st, fns, mods, inc = parallel_explore(prog, RC.make_race(prog, bound, delete_latest=delete_latest, empty_archive=empty), deadline=dl,
+                                               max_paths=400000, step_budget=900000)
     rep.functions |= fns
     rep.models |= mods
     rep.samples += res.get('samples', [])[:2]
     stats = _stats(st)
     name = ('a backup racing %s: after every interleaving (<= %d preemptions) every complete version refers only to blocks that still exist'
-            % ('a delete of the newest version (its basis)' if delete_latest else 'a garbage collection', bound))
+            % ('a delete of the newest version (its basis)' if delete_latest else
+               'a garbage collection of an archive that holds no version yet, only left-over blocks' if empty else 'a garbage collection', bound))
     for b in res['bad']:
         m = b.get('model') or {}
         sa, sg = m.get('size_a', 10), m.get('size_g', 10)
@@ -1237,6 +1242,8 @@ def _race_obligation(rep, prog, RC, bound, dl, delete_latest):
                               {'path': '/g', 'kind': 'File', 'content_len': sg, 'content_class': 7, 'mtime': [11, 0], 'mode': 0o644}],
               'garbage_file': '/g', 'schedule': [a for a, v, p in b['schedule']], 'delete': [1] if delete_latest else [],
               'mirsym': {'key': b['key'], 'results': b['results'], 'schedule': [(a, v, p[-20:]) for a, v, p in b['schedule']]}}
+        if empty:
+            sc['remove_first_version'] = True
         if delete_latest:
             fc = {'path': '/c', 'kind': 'File', 'content_len': m.get('size_c', 9), 'content_class': 3, 'mtime': [12, 0], 'mode': 0o644}
             sc['middle_tree'] = [sc['first_tree'][0], fc]
